@@ -341,13 +341,15 @@ func init() {
 		Rule: "handler: cases = (underlying logger held as Logger or *Entry, pre-set level, all 8 HandlerOptions boolean combinations x 6 Level values, derivation chain of 0-4 WithAttrs/WithGroup calls, log/slog record with explicit time, standard level, hostile message and 0-5 attributes of every log/slog kind: String/Int64/Uint64/Float64/Bool/Time/Duration/Any(error|struct|nil|int8|[]string)/LogValuer/Group nested <= 3); " +
 			"oracles: Handler.Enabled == logger gate (base and derived); Handle emits exactly one record at the logger's own destination (nothing on fds 1/2, which are redirected); the decoded record (C04/C05/C06 decoders) has the message, the record's own time, the namesake severity and the expected attribute tree (attributes given after WithGroup nested under it); a log/slog.Logger on the handler emits iff the logger admits. " +
 			"bridge: all (8 logger levels x 8 bridge severities) pairs x Print/Printf/Println/Output x hostile messages with 0-2 trailing newlines: one record iff the logger admits the severity, message == std-log line minus its trailing newline, level == bridge severity. " +
-			"conc: 2-16 goroutines log through ONE derived handler (WithAttrs/WithGroup chain of depth 1-3), with and without the race detector: every record carries its own attributes under the groups, none is lost. levelsweep: production child processes run Entry.Log for every log/slog level in -1100..1100 and 53 far values (incl. those equal to LevelFatal / LevelPanic modulo 2^8, 2^16, 2^32) (only LevelFatal / LevelPanic may terminate; the four standard levels are recorded under their namesakes). Round 12 (bridge): three registered severities of the application next to the built-in ones. non-trivial = decoded and matched record / judged pair; distinct = by payload or pair",
+			"conc: 2-16 goroutines log through ONE derived handler (WithAttrs/WithGroup chain of depth 1-3), with and without the race detector: every record carries its own attributes under the groups, none is lost. levelsweep: production child processes run Entry.Log for every log/slog level in -1100..1100 and 53 far values (incl. those equal to LevelFatal / LevelPanic modulo 2^8, 2^16, 2^32) (only LevelFatal / LevelPanic may terminate; the four standard levels are recorded under their namesakes). Round 12 (bridge): three registered severities of the application next to the built-in ones. Round 13 (grouphist): five records in a row through one derived handler whose With step holds a group, two of them carrying a group of the same name, two nothing: each carries the handler's attributes and its own (the later group stands in for the earlier one), nothing of an earlier record; 3 formats x 3 derivations. non-trivial = decoded and matched record / judged pair; distinct = by payload or pair",
 		Assumptions: []string{"attributes bound to the underlying logger itself are not generated (the statement does not say whether a handler shows them)", "an open group always receives at least one attribute (log/slog elides empty groups)"},
 		Floors:      map[string]int64{"records_decoded": 300, "derived_handler_records": 100, "enabled_compared": 1000, "bridge_calls": 500, "bridge_records_decoded": 100, "concurrent_handler_records": 5000, "levels_returned_normally": 79, "explicit_terminations_observed": 2},
 		Jobs: func(tier string, seed int64) []Job {
 			js := chunk("handler", "prod", pick(tier, 24000, 800000), pick(tier, 2000, 50000), Job{Timeout: 30 * time.Minute})
 			js = append(js, chunk("bridge", "prod", pick(tier, 8192, 262144), pick(tier, 1024, 16384), Job{Timeout: 30 * time.Minute})...)
 			js = append(js, chunk("levelsweep", "prod", 3, 1, Job{Timeout: 10 * time.Minute})...)
+			// several records through one derived handler whose With step holds a group (some carry a group of the same name)
+			js = append(js, Job{Sub: "grouphist", Mode: "prod", From: 0, To: 36, Timeout: 10 * time.Minute}, Job{Sub: "grouphist", Mode: "test", From: 0, To: 18, Timeout: 10 * time.Minute})
 			js = append(js, chunk("conc", "prod", pick(tier, 12, 200), pick(tier, 3, 10), Job{Timeout: 20 * time.Minute})...)
 			js = append(js, chunk("conc", "prod", pick(tier, 6, 100), pick(tier, 3, 10), Job{Race: true, Args: []string{"-x", "race=1"}, Timeout: 30 * time.Minute})...)
 			return js
